@@ -822,6 +822,9 @@ func (b *Block) GetPointLabels(pts []dvid.Point3d) []uint64 {
 	maxSubBlocks := int(gx * gy * gz)
 	subBlockPts := make(map[int][]ptIndex)
 	for i, pt := range pts {
+		if pt[0] < 0 || pt[1] < 0 || pt[2] < 0 || pt[0] >= b.Size[0] || pt[1] >= b.Size[1] || pt[2] >= b.Size[2] {
+			continue // outside the block
+		}
 		sx := pt[0] >> subBlockShift
 		sy := pt[1] >> subBlockShift
 		sz := pt[2] >> subBlockShift
